@@ -34,6 +34,7 @@ def check(ctx) -> None:
     r182(ctx)
     r183(ctx)
     r184(ctx)
+    r186(ctx)
 
 
 def _unwrap_bytes(e):
@@ -255,3 +256,67 @@ def r184(ctx) -> None:
             'reader 0x2a 0x3a 0x2c',
             f'writer constants {sorted(wconst)} / reader byte tests '
             f'{sorted(rconst)} disagree on "*", ":" or ","')
+
+
+MODUTF7 = 'pymap/parsing/modutf7.py'
+
+
+def r186(ctx) -> None:
+    R = ctx.rule('R18.6', 'modified UTF-7 encoder escapes every raw "&"', 2,
+                 'RFC 3501 5.1.3: "&" is represented by the two-octet '
+                 'sequence "&-"')
+    m = ctx.proj.module(MODUTF7)
+    f = m.funcs.get('modutf7_encode')
+    if f is None:
+        raise AnchorError('modutf7_encode vanished')
+    cfg = cfg_of(f)
+    # the loop variable holding the code point
+    cps = set()
+    for nm in {x.id for x in walk_local(f.node) if isinstance(x, ast.Name)}:
+        if any(v is not None and isinstance(v, ast.Call)
+               and call_name(v) == 'ord' for _, v in local_assigns(f, nm)):
+            cps.add(nm)
+    if not cps:
+        raise AnchorError('modutf7_encode: code point variable not found')
+    n = 0
+    for node in cfg.stmt_nodes():
+        for c in node.calls():
+            if call_name(c) not in ('append', 'extend') or not c.args:
+                continue
+            arg = c.args[0]
+            elems = arg.elts if isinstance(arg, (ast.Tuple, ast.List)) \
+                else [arg]
+            raw = [e for e in elems if isinstance(e, ast.Name)
+                   and e.id in cps]
+            if not raw:
+                continue
+            n += 1
+            cp = raw[0].id
+            safe = False
+            for t in cfg.nodes:
+                if t.kind != 'test':
+                    continue
+                for a, pol in guard_atoms(t.stmt.test):
+                    if a.replace(' ', '') in (f'{cp}==38', f'{cp}==0x26',
+                                              f'{cp}==ord(\'&\')'):
+                        br = 'f' if pol else 't'
+                        if cfg.controlled_by(node, t, br):
+                            safe = True
+                    if a.replace(' ', '') in (f'{cp}!=38', f'{cp}!=0x26'):
+                        br = 't' if pol else 'f'
+                        if cfg.controlled_by(node, t, br):
+                            safe = True
+            # guard_atoms unparses 0x26 as 38
+            R.check(safe, f, c, f'modutf7_encode: raw emission of `{cp}` at '
+                    f'{txt(c)[:40]} excludes "&"',
+                    f'`{cp}` is written unencoded on a path where it may be '
+                    f'"&" (0x26): a name such as "é&a" is reported by LIST '
+                    f'as b"&AOk-&a", which does not decode back to the same '
+                    f'name (the "&" opens a shift sequence)')
+    if n == 0:
+        raise AnchorError('modutf7_encode: raw emissions not found')
+    amp = any(const_value(c.args[0]) == (True, b'&-')
+              for c in calls_in(f.node) if call_name(c) == 'extend'
+              and c.args)
+    R.check(amp, f, f.node, 'modutf7_encode emits "&-" for "&"',
+            'the encoder never emits the "&-" escape')
